@@ -208,11 +208,15 @@ func isUpper(b byte) bool { return 'A' <= b && b <= 'Z' }
 func toLower(b byte) byte { return b + ('a' - 'A') }
 func toUpper(b byte) byte { return b - ('a' - 'A') }
 
-func runtimeHashWithCustomSalt(salt []byte) uint32 {
+// runtimeHashWithCustomSalt hashes a value which is compiled into the package pkgPath.
+// Without a seed it must follow the GarbleActionID of that very package:
+// Go only recompiles a package when its own action ID changes,
+// so a value based on another package would go stale in the build cache.
+func runtimeHashWithCustomSalt(pkgPath string, salt []byte) uint32 {
 	hasher.Reset()
 	if !flagSeed.present() {
-		runtimePkg, _ := sharedCache.ListedPackages.get("runtime")
-		hasher.Write(runtimePkg.GarbleActionID[:])
+		lpkg, _ := sharedCache.ListedPackages.get(pkgPath)
+		hasher.Write(lpkg.GarbleActionID[:])
 	} else {
 		hasher.Write(flagSeed.bytes)
 	}
@@ -221,16 +225,16 @@ func runtimeHashWithCustomSalt(salt []byte) uint32 {
 	return binary.LittleEndian.Uint32(sum)
 }
 
-// magicValue returns random magic value based
-// on user specified seed or the runtime package's GarbleActionID.
+// magicValue returns random magic value based on user specified seed
+// or the GarbleActionID of internal/abi, the package which declares it.
 func magicValue() uint32 {
-	return runtimeHashWithCustomSalt([]byte("magic"))
+	return runtimeHashWithCustomSalt("internal/abi", []byte("magic"))
 }
 
-// entryOffKey returns random entry offset key
-// on user specified seed or the runtime package's GarbleActionID.
+// entryOffKey returns random entry offset key based on user specified seed
+// or the GarbleActionID of runtime, the package which uses it.
 func entryOffKey() uint32 {
-	return runtimeHashWithCustomSalt([]byte("entryOffKey"))
+	return runtimeHashWithCustomSalt("runtime", []byte("entryOffKey"))
 }
 
 func hashWithPackage(pkg *listedPackage, name string) string {
